@@ -31,6 +31,22 @@ CHECKS = {
    text="Small-scope exhaustive enumeration: every 1-2 element path over 3 names and 0-2 keys where one key takes every string of length 1..3 (thorough 1..4) over {a / [ ] = \\ space . e-acute} and the others a 12-value adversarial set; PathToString->StringToStructuredPath and the legacy string-slice form must return the path, and every produced string is hashed to decide injectivity directly.",
    technique="exhaustive enumeration of a bounded path alphabet against round-trip and injectivity laws on the real functions", note="values longer than the bound or outside the 9-character alphabet are not covered; proto.Equal is trusted"),
 }
+
+VAL_NOTE = "values, strings and shapes outside the stated alphabets/bounds are not covered; trusted base: the independent reference functions under harness/core (ref*.go), goyang as source of schema facts, encoding/json, math/big"
+CHECKS.update({
+ "C06": dict(engine="valmc", cat="exploration", sec="5/C06",
+   text="Bounded-exhaustive restriction family: all range expressions with <=2 parts over a 7-value bound set (incl. min/max) for the 8 integer types and decimal64 (fraction-digits 1,3,18), all length expressions with <=2 parts for string (characters) and binary (bytes), all pattern ASTs of size <=4 over {a,b,.,[ab],[^a],\\d,e-acute} x {concat,|,*,+,?,group} bare and wrapped in ^/$, two-pattern conjunctions, posix-pattern forms - each compiled by goyang - against complete value domains (all int8/uint8/int16/uint16 values; all strings of <=4 symbols with 1-4 byte runes). ytypes.Validate*Restrictions must accept exactly what the reference (math/big arithmetic; an independent Brzozowski-derivative regexp matcher cross-checked by a second evaluator) accepts, and no supported pattern may sanitise into something uncompilable or rejecting everything.",
+   technique="exhaustive small-scope enumeration of restrictions x values on the real validators, differential against independent reference arithmetic and a reference regexp matcher", note=VAL_NOTE),
+ "C16": dict(engine="valmc", cat="exploration", sec="5/C16",
+   text="Every keyed list (unordered and ordered) of the 8 corpus packages plus a dedicated key corpus (schemas/vk.yang: all integer widths, decimal64 with several fraction-digits, boolean, enum, identityref, union, leafref, multi-key, ordered variants) x every value of a per-type key domain (complete for boolean/enum/identity, boundaries for integers, strings with path metacharacters and non-ASCII, signed/large decimals, each union member): the key strings ygot produces (TogNMINotifications, Diff, PathKeyFromStruct, KeyValueAsString) are fed to GetNode, DeleteNode and SetNode on trees that also hold the neighbouring keys; results compared through the reference observer.",
+   technique="exhaustive enumeration list x key value x key-string source x operation on the real implementation, round-trip law through the reference observer", note=VAL_NOTE),
+ "C17": dict(engine="valmc", cat="exploration", sec="5/C17",
+   text="Every generated enumeration / identityref type (528 types, 1229 positions: leaf, leaf-list, union, list key) of 34 packages - the 8 corpus packages plus an adversarial enum corpus (names with . - + : * digits, UNSET, negative/large values, same identity name in two modules, typedef reuse) generated under all 16 enum-naming flag combinations - x every defined value, zero and undefined representatives: names unique, render->parse (bare and module-prefixed, JSON and gNMI, repeated because the decoder ranges over a Go map) returns the value, zero never rendered, undefined values give errors; names and counts compared with a direct goyang compile.",
+   technique="exhaustive enumeration over all enum types x values x positions x naming-flag configurations on the real encoders/decoders, round-trip law plus comparison with goyang", note=VAL_NOTE),
+ "C18": dict(engine="valmc", cat="exploration", sec="5/C18",
+   text="Full cartesian product of all 28 leaf / leaf-list types under /vt:top x {simple, wrapper unions} x 164 JSON texts (285 thorough: every JSON kind, integer boundaries +-1 and +-0.5 as number and string, exponent/hex/NaN/Inf/sign/whitespace spellings, base64 variants, enum names with and without (foreign) module prefixes, [null] variants) through Unmarshal and SetNode(json_ietf) and 176 TypedValue messages (228 thorough) through SetNode with and without TolerateJSONInconsistencies. Each outcome must lie in the allowed set of an independent three-valued reference decoder ({reject}, {v}, or {reject,v} for lenient lexical forms) and every accepted value must re-render to the same value.",
+   technique="exhaustive cartesian enumeration (leaf type x input atom x entry point) on the real decoders against an independent three-valued reference decoder plus a re-render law", note=VAL_NOTE),
+})
 ALL = [json.loads(l)["id"] for l in open(os.path.join(V, "properties.jsonl"))]
 NA = {
 }
